@@ -140,9 +140,12 @@ Definition unmarshal_agent_limits (a : agent_u64) : agent_limits :=
 Definition scale_agent_log (agent_log collector_period : Z) : Z :=
   f2i (Z.quot (agent_log * collector_period) DefaultReportPeriod).
 
+(* agentLogLimitValid := agentLogLimit >= 0 is recorded BEFORE the scaling (fix b82e6ce): a small negative
+   value scaled to a short period truncates to 0 and would otherwise pass the test after the scaling *)
 Definition final_log_limit (agent_log collector_limit collector_period : Z) : Z :=
+  let valid := 0 <=? agent_log in
   let scaled := scale_agent_log agent_log collector_period in
-  if (0 <=? scaled) && (scaled <? collector_limit) then scaled else collector_limit.
+  if valid && (0 <=? scaled) && (scaled <? collector_limit) then scaled else collector_limit.
 
 Definition process_log_event_limits (agent_log : Z) (e : ehconfig) : ehconfig :=
   let c := cfgs e in
@@ -250,7 +253,7 @@ Definition mon_cap (a : agent_u64) (r : reply_in) (k : ecat) (cap : Z) : bool :=
           if agent <? 2 ^ 63 then
             let scaled := agent * spec_log_period_ms r / 60000 in
             if spec_log_period_ms r <? 2 ^ 40 then cap =? Z.min c scaled else cap <=? c
-          else cap <=? c                                         (* not a valid count: must not raise the cap *)
+          else cap =? c                                          (* >= 2^63, not a valid count: ignored *)
       | _ => cap =? c
       end
   end.
